@@ -25,7 +25,7 @@ Stated bounds (u = 2^-53, k = number of slots, sums over the neighbours in range
 Unconstrained by the property (accepted either way by the oracle, still compared bit for bit with the model):
   a masked neighbour in range whose weight is 0 (code: does not mask); count in {neighbours in range, neighbours with w != 0}
   (code: neighbours in range); stddev where >= 2 neighbours are in range but at most one has non-zero weight (0/0 or x/0).
-Attribution keys: C04.neighbour_info.*, C04.weights, C04.mean, C04.mean.missing_slot_leak, C04.fill, C04.mask, C04.count[.k1|.mask],
+Attribution keys: C04.neighbour_info.*, C04.weights, C04.mean, C04.mean.missing_slot_leak, C04.mean.placeholder_weight, C04.fill, C04.mask, C04.count[.k1|.mask],
   C04.stddev[.undefined|.mask], C04.uncert.return[.empty], C04.shape, C04.error.<Exception>.
 Not translated by py2coq: the anchored functions are numpy array loops, not loop-free scalar code; the tie is the correspondence.
 """
@@ -79,12 +79,17 @@ def wf_eval(name, p, d):
         return p / (d * d) if d * d != 0 else math.copysign(float("inf"), p)
     if name == "invdt":
         return 1.0 / (d + p) if d + p != 0 else float("inf")
+    # singular at the placeholder distance 1
+    if name == "sing1":
+        return p / abs(d - 1.0) if d != 1.0 else math.copysign(float("inf"), p)
+    if name == "sing1sq":
+        return p / ((d - 1.0) * (d - 1.0)) if d != 1.0 else math.copysign(float("inf"), p)
     raise KeyError(name)
 
 
 def wf_eps(name, p, d):
     """relative uncertainty allowed between the table and the scalar evaluation"""
-    if name in ("inv", "lin", "invd", "invd2", "invdt"):
+    if name in ("inv", "lin", "invd", "invd2", "invdt", "sing1", "sing1sq"):
         return 16 * U
     return 0.0
 
@@ -313,10 +318,10 @@ def gen_case(r, stream):
         for _ in range(shape_c):
             name = r.choice(["bins", "bins", "bins", "inv", "lin", "const", "step0", "allzero"])
             if singular:
-                name = r.choice(["invd", "invd2", "invdt"])
+                name = r.choice(["invd", "invd2", "invdt", "sing1", "sing1sq"])
             if name == "invdt":
                 p = r.choice([1e-310, 1e-300, 1e-3])       # 1/(0 + 1e-310) overflows to inf, 1/(0 + 1e-300) is huge but finite
-            elif name in ("invd", "invd2"):
+            elif name in ("invd", "invd2", "sing1", "sing1sq"):
                 p = r.choice([1.0, 1000.0, radius])
             elif name == "const":
                 p = r.choice([1.0, 0.5, 2.0, 0.0])
@@ -377,6 +382,9 @@ class Judge:
         self.stats = {}
 
     def bad(self, key, what):
+        # a cell with a missing slot under a weight function singular at the placeholder distance: one root cause
+        if getattr(self, "cell_override", None) and key in ("C04.mask", "C04.mean", "C04.fill", "C04.stddev", "C04.stddev.undefined", "C04.stddev.mask"):
+            key = self.cell_override
         if len(self.fail) < 6:
             self.fail.append((key, what))
 
@@ -537,6 +545,10 @@ class Judge:
         m = bool(o["res"]["mask"][t][j]) if is_ma else False
         where = "target %d channel %d" % (t, j)
         tolv = 0.0
+        self.cell_override = None
+        if (c["mode"] == "custom" and k > 1 and c["wf"][j][0] in ("sing1", "sing1sq") and present_row is not None
+                and 0 < len(present_row) < nslots):
+            self.cell_override = "C04.mean.placeholder_weight"
         # ---------------- expected value
         pres = []
         if present_row:
@@ -584,13 +596,18 @@ class Judge:
             self.stat("cells_mean")
             if must_mask and not m:
                 self.bad("C04.mask", "%s: a masked neighbour with positive weight contributes but the result is not masked" % where)
+            sing_placeholder = (c["mode"] == "custom" and k > 1 and c["wf"][j][0] in ("sing1", "sing1sq") and len(pres) < nslots)
             if m and not may_mask and not (fill_none and v == fe):
-                self.bad("C04.mask", "%s: result masked although no neighbour in range is masked" % where)
+                self.bad("C04.mean.placeholder_weight" if sing_placeholder else "C04.mask",
+                         "%s: result masked although no neighbour in range is masked%s" % (
+                             where, " (%d neighbour(s) in range, weight function singular at the placeholder distance 1)" % len(pres) if sing_placeholder else ""))
             if not m and mean is not None:
                 if not (math.isfinite(v) and abs(Fraction(v) - mean) <= Fraction(B)):
                     key = "C04.mean"
                     if v != v and first_valid is not None and len(pres) < nslots and not math.isfinite(vals[first_valid][j]):
                         key = "C04.mean.missing_slot_leak"
+                    elif sing_placeholder:
+                        key = "C04.mean.placeholder_weight"
                     value_ok = False
                     self.bad(key, "%s: result %r, but sum(w*x)/sum(w) over the %d neighbours in range %s is %r (bound %.3g)" % (
                         where, v, len(pres), [(w, x) for w, x, _, _ in pres][:8], float(mean), B))
@@ -720,6 +737,8 @@ def run(ctx):
         ctx.count("k=%d" % c["k"])
         if c["mode"] == "custom" and any(w[0] in ("invd", "invd2", "invdt") for w in c["wf"]):
             ctx.count("wf_singular_at_0")
+        if c["mode"] == "custom" and any(w[0] in ("sing1", "sing1sq") for w in c["wf"]):
+            ctx.count("wf_singular_at_placeholder_1")
         ctx.count("dtype:" + c["dtype"])
         if c["mask"] is not None:
             ctx.count("masked_input")
